@@ -3,7 +3,7 @@
 From Coq Require Import List NArith Bool Lia.
 From Breadlog Require Import Model.Peg Model.Text Model.Regex Model.Glue Model.Tables Model.Utf8 Model.Driver Model.History.
 From Breadlog Require Import Gen.Consts.
-From Breadlog Require Import Proofs.RewriteFacts Proofs.WorldFacts Proofs.DriverFacts Proofs.AllocFacts Proofs.RunFacts Proofs.HistoryFacts Proofs.CheckFacts Proofs.RuleLemmas Proofs.StatementLemmas Proofs.ArgLemmas Proofs.FileSpec Proofs.CanonicalRun.
+From Breadlog Require Import Proofs.RewriteFacts Proofs.WorldFacts Proofs.DriverFacts Proofs.AllocFacts Proofs.RunFacts Proofs.HistoryFacts Proofs.CheckFacts Proofs.RuleLemmas Proofs.StatementLemmas Proofs.ArgLemmas Proofs.FileSpec Proofs.CanonicalRun Proofs.ValidUtf8.
 From Breadlog Require Import Properties.Common.
 Import ListNotations.
 Open Scope N_scope.
@@ -45,6 +45,29 @@ Proof.
     exists es, c0, chunks, last. repeat split; auto.
     unfold after, world0, Common.edit. rewrite Hc, Hout. reflexivity.
 Qed.
+
+(* AT THE LEVEL OF CHARACTERS, for EVERY readable file whatever it contains (no canonical-language hypothesis):
+   the bytes written are the UTF-8 encoding of the old TEXT with one reference inserted at the CHARACTER position of
+   each entry that lacks one (`tweave`: the rewriter on characters; the finder's byte offsets are character
+   boundaries, GlueFacts.entries_bnd), and they are valid UTF-8 again: the new file decodes to exactly that text.
+   An edit never cuts a multi-byte character and never leaves a file the next run cannot read. *)
+Theorem C03_every_file_text : forall rc files lk o j b t,
+  files <> [] -> nth_error files j = Some b -> utf8_decode b = Some t -> o_rfail2 o j = false ->
+  let new := nth_error (w_src (after rc files lk o)) j in
+  new = Some b \/
+  exists es c0 t',
+    find (rc_cfg rc) t = Done es /\
+    tweave the_params t 0 (filter missing_insert es) c0 = Some t' /\
+    new = Some (utf8_encode t') /\ utf8_decode (utf8_encode t') = Some t'.
+Proof. exact file_after_edit_text. Qed.
+
+(* non-vacuity: a statement behind multi-byte characters on its line (2-, 3- and 4-byte) *)
+Example C03_every_file_nonvacuous :
+  let t := [252; 8364; 128512; 59; 32; 105;110;102;111;33;40;34;98;34;41;59] in   (* "ü€😀; info!(\"b\");" *)
+  let cfg := mkConfig false [([108;111;103], [105;110;102;111])] in
+  exists e, find cfg t = Done [e] /\ e_pos e = 18 /\
+  tweave the_params t 0 [e] 1 = Some [252; 8364; 128512; 59; 32; 105;110;102;111;33;40;34; 91;114;101;102;58;32;49;93;32; 98;34;41;59].
+Proof. eexists. vm_compute. repeat split; reflexivity. Qed.
 
 (* THE SAME FROM THE FILE'S TEXT ALONE, for every file of the canonical file language of
    Proofs/FileSpec.v (see C10_canonical_files): the places are those `expected` computes from the text --
@@ -137,6 +160,7 @@ Example C03_nonvacuous :
 Proof. vm_compute. reflexivity. Qed.
 
 Print Assumptions C03_insert_only.
+Print Assumptions C03_every_file_text.
 Print Assumptions C03_canonical_files.
 Print Assumptions C03_canonical_rewritten.
 Print Assumptions C03_message_style_token.
